@@ -2,12 +2,13 @@
 from . import common, generic
 
 RULE = ("one evaluation = one scenario on a real StdScheduler (public API, a JobQueue wrapper that can stall one call): the execution loop is parked on "
-        "{empty queue, far-future head (1 h), paused head, a 100 ms job in blocking mode, a full worker pool (WorkerLimit 1, worker busy 100 ms)} x the call under "
+        "{empty queue, far-future head (1 h), paused head, a 100 ms job in blocking mode, a full worker pool (WorkerLimit 1, worker busy 100 ms), 'vanishing' = a due job that is removed (DeleteJob / behind the scheduler's back, as another node "
+        "sharing the queue would) while the loop is between its Head() and its tick, so that the tick finds an honestly empty queue} x the call under "
         "test is {ScheduleJob of a new job due in 3..10 ms, ScheduleJob with Replace bringing an existing 1 h job forward, ResumeJob of a paused job whose trigger "
         "is due in 3..10 ms} x a stall of 20..40 ms is injected into {the loop's next Size() call, its next Head() call (both read the queue first, then sleep: the "
         "call under test is issued while the loop is inside the stalled call, i.e. between reading the queue and blocking in select), the queue mutation of the "
         "call under test itself (sleeps before it takes effect, so a token sent too early would be used up), nothing} x concurrently other jobs are "
-        "{deleted, paused, cleared immediately before the call, left alone}: 240 cells, each run twice (quick) with seeded delays, 12 schedulers in parallel. "
+        "{deleted, paused, cleared immediately before the call, left alone}: 288 cells, each run twice (quick); RetryInterval is 2 s in every scenario, so a back-off started without a queue failure would show as a late job; with seeded delays, 12 schedulers in parallel. "
         "Verdict: Execute of the job starts within 300 ms of max(API return, its fire time, end of the blocking job / the worker becoming free). Not started after "
         "300 ms + 2 s more = violation at once; started late = the scenario is re-run alone up to three times and is a violation only if late again. "
         "A scenario is non-trivial when the loop was really parked / the stall was really entered (reported as stall '...-not-reached' otherwise); distinct by cell. "
@@ -20,7 +21,7 @@ def run(ctx):
     if not b.get("go_ok"):
         common.report_violation(ctx, "the harness no longer builds against /repo", {"log": b.get("go_log", "")[-2000:]}, no_input=True)
         return common.finish(ctx)
-    n = 480 if not ctx.thorough else 2400
+    n = 576 if not ctx.thorough else 2880
     results = [generic.engine_run(ctx, "wakeup", ["--seed", str(ctx.seed), "--n", str(n)], "main", timeout=900)]
     if ctx.thorough:
         for k, par in enumerate([4, 12, 32], 1):
@@ -31,6 +32,8 @@ def run(ctx):
         "sync.Locker: the mutators hold queueLocker from before the mutation until after Reset() (regenerated fact), so concurrent API calls are serialised: "
         "the model's single API thread issuing any number of calls",
         "abstraction: the queue is its earliest fire time among entries that are not paused; the timer is the deadline it was armed with",
+        "the loop is outside the back-off window of C15 (entered only after a queue failure; an honestly empty Pop() does not start one: C15_honest_empty_pop and the "
+        "'vanishing' scenarios); inside a window a due job waits for its end, at most RetryInterval",
         "'promptly' in wall-clock terms (timer accuracy, goroutine scheduling) is observed by the scenario matrix, not proved; the model makes no fairness or "
         "timing assumption: it proves that a parked loop with no token pending is armed no later than the earliest fire time of the current queue"])
     generic.judge(ctx, results, bad, "wakeup",
